@@ -276,11 +276,45 @@ impl<'t> DocGen<'t> {
     fn import_statement(&mut self) {
         let n = self.fresh("imp");
         let rename = if self.t.chance(1, 4) {
-            format!(" as \"{}\"", self.t.pick(&["my-name", "a", "b", "f", "foo:shared/log@1.0.0", "x-y"]))
+            format!(
+                " as \"{}\"",
+                self.t.pick(&[
+                    "my-name",
+                    "a",
+                    "b",
+                    "f",
+                    "foo:shared/log@1.0.0",
+                    "foo:shared/log@1.1.0",
+                    "foo:shared/types@1.0.0",
+                    "foo:shared/types@1.1.0",
+                    "bar:util/clock",
+                    "x-y"
+                ])
+            )
         } else {
             String::new()
         };
-        match self.t.draw(6) {
+        match self.t.draw(7) {
+            6 => {
+                // an explicit import carrying the name of an interface on the same semver track
+                // as (or equal to) an implicit import of the library components
+                let name = *self.t.pick(&[
+                    "foo:shared/types@1.0.0",
+                    "foo:shared/types@1.1.0",
+                    "foo:shared/log@1.0.0",
+                    "foo:shared/log@1.1.0",
+                    "foo:shared/kv@1.0.0",
+                    "bar:util/clock",
+                ]);
+                let ty = match self.t.draw(4) {
+                    0 => "func()".to_string(),
+                    1 => "foo:shared/log@1.1.0".to_string(),
+                    2 => "foo:shared/types@1.0.0".to_string(),
+                    _ => "foo:shared/log@1.0.0".to_string(),
+                };
+                self.out.push_str(&format!("import {n} as \"{name}\": {ty};\n"));
+                self.others.push(n);
+            }
             0 => {
                 let f = self.func_type();
                 self.out.push_str(&format!("import {n}{rename}: {f};\n"));
@@ -291,6 +325,8 @@ impl<'t> DocGen<'t> {
                     "foo:shared/log@1.0.0",
                     "foo:shared/kv@1.0.0",
                     "foo:shared/types@1.0.0",
+                    "foo:shared/log@1.1.0",
+                    "foo:shared/types@1.1.0",
                     "bar:util/clock",
                     "bar:util/rand",
                     "bar:util/fmt",
